@@ -12,3 +12,13 @@ pub fn convert_x(value: &Value, dst: TypeId, trunc: bool) -> Result<Value, Runti
     };
     dispatch::apply_conversion(spec, core::slice::from_ref(value))
 }
+
+/// `TO_BCD_<dst>` (to_bcd = true) or `BCD_TO_<dst>` applied to one value.
+pub fn bcd_x(value: &Value, dst: TypeId, to_bcd: bool) -> Result<Value, RuntimeError> {
+    let spec = if to_bcd {
+        spec::ConversionSpec::ToBcd { src: None, dst }
+    } else {
+        spec::ConversionSpec::BcdTo { src: None, dst }
+    };
+    dispatch::apply_conversion(spec, core::slice::from_ref(value))
+}
